@@ -507,6 +507,8 @@ class OverhangFilter(Module):
         dir_layer = int(np.argmax(abs(self.direction)))  # The axis of the print direction
         dx_layer = int(np.sign(self.direction[dir_layer]))  # Iteration direction
         ind_layer = size[dir_layer]-1 if dx_layer >= 0 else 0  # Starting index (="ending" in response)
+        if size[dir_layer] < 2:  # Only a base layer, which is directly transferred
+            return dxprint.copy()
 
         dir_orth1 = (dir_layer + 1) % 3
         dir_orth2 = (dir_layer + 2) % 3
